@@ -68,6 +68,8 @@ Strings ==
          Rep(97, 127), Rep(97, 128), Rep(97, 16383), Rep(97, 16384),
          Rep(233, 63), Rep(233, 64), Rep(97, 125) \o <<233>>, Rep(97, 126) \o <<233>>,
          Rep(8364, 5461), Rep(8364, 5461) \o <<97>>, Rep(128512, 4096), Rep(128512, 4095) \o Rep(97, 3),
+         \* at most 32767 characters (the protocol's limit) but more than 32767 bytes; and the longest ASCII string
+         Rep(233, 16400), Rep(8364, 11000), Rep(97, 32767),
          <<72, 233, 108, 108, 8364, 32, 128512, 33>> }}
 
 \* ---- byte arrays
